@@ -228,8 +228,9 @@ os.write(2, b'@END@\\n')
 
 def crash_site(tree, builddir, mod, f, b):
     """where did the compiled function crash?  It is run once more in its own process with a `log` that writes a mark per
-    call; n marks -> the crash lies between CPython's n-th and (n+1)-th log call.  -> (variable CPython finds unbound in
-    that window or None, index of that event or None, events, (start, end) of the window) or None"""
+    call; n marks -> the crash lies between CPython's n-th and (n+1)-th log call.
+    -> (indices of the events in that window at which CPython finds a variable unbound - the compiled function handled
+    all but the last one it reached -, events, (start, end) of the window) or None"""
     from vlib import core
     r = core.run([core.PY, '-c', PARTIAL, builddir, mod, f['name'], str(b)], env=tree.env(), timeout=120)
     if '@END@' in (r.err or ''):
@@ -251,7 +252,7 @@ def crash_site(tree, builddir, mod, f, b):
     if end is None:
         end = len(ev)
     ne = [i for i in range(start, end) if ev[i][0] == 'nameerror']
-    return (ev[ne[0]][2] if ne else None), (ne[0] if ne else None), ev, (start, end)
+    return ne, ev, (start, end)
 
 
 def jump_classification(f, case, site=None):
@@ -265,14 +266,14 @@ def jump_classification(f, case, site=None):
     tree_ = ast.parse(src)
     fnode = [nd for nd in tree_.body if isinstance(nd, ast.FunctionDef) and nd.name == f['name']][0]
     sites = nested_finally_jump_sites(src)
-    if not sites:
+    if not sites and site is None:
         return None
     b = int(re.match(r'\((\d+),\)', case['a']).group(1))
     if site is None:
         lines = {e[1] for e in reference_events(src, f['name'], b) if e[0] == 'line'}
         hit = sorted({sites[ln][0] for ln in lines if ln in sites and sites[ln][2]})
         return 'jump-through-nested-finally:%s:outer-levels-rebind' % '+'.join(hit) if hit else None
-    var, pos, ev, (wstart, wend) = site
+    nes, ev, (wstart, wend) = site
     bl = binding_lines(fnode)
     jumps = {nd.lineno for nd in ast.walk(fnode) if isinstance(nd, (ast.Break, ast.Continue, ast.Return))}
 
@@ -292,8 +293,9 @@ def jump_classification(f, case, site=None):
     def key(j, what):
         return 'jump-through-nested-finally:%s:%s' % (sites[j][0], what)
 
-    if pos is not None:
-        # the crash is the read/del at which CPython finds `var` unbound
+    def at_unbound_use(pos):
+        """the crash is the read/del at which CPython finds a variable unbound (event index pos)"""
+        var = ev[pos][2]
         j = last_jump(pos)
         if j in sites:
             if ev[pos][1] in outer_finally_lines(fnode, j, sites[j][0]):
@@ -308,8 +310,14 @@ def jump_classification(f, case, site=None):
         j = last_jump(pos)
         if j in sites and sites[j][0] == 'return' and sites[j][2]:
             return key(j, 'outer-levels-rebind')
+        if is_del and del_in_try_seen_from_handler(fnode, ev[cause][1], ev[pos][1]):
+            return 'del-in-try-body-not-seen-by-handler-or-finally'
         return None
-    # no unbound read in the window: an assignment to a variable that is unbound at that point (CPython: fine; compiled:
+    for pos in nes:
+        k_ = at_unbound_use(pos)
+        if k_:
+            return k_
+    # (or) an assignment to a variable that is unbound at that point (CPython: fine; compiled:
     # decref of NULL) - inside an outer `finally` clause the jump is running, or the variable was unbound by a `del` in
     # an outer `finally` clause of a break/continue taken before
     for i in range(wstart, wend):
@@ -327,7 +335,22 @@ def jump_classification(f, case, site=None):
             j = last_jump(cause)
             if j in sites and sites[j][0] != 'return' and ev[cause][1] in outer_finally_lines(fnode, j, sites[j][0]):
                 return key(j, 'outer-levels-rebind')
+            if del_in_try_seen_from_handler(fnode, ev[cause][1], ev[i][1]):
+                return 'del-in-try-body-not-seen-by-handler-or-finally'
     return None
+
+
+def del_in_try_seen_from_handler(fnode, del_line, use_line):
+    """is del_line inside the body of a try statement and use_line inside one of that statement's except handlers or its
+    `finally` clause?  (FlowControl.visit_DelStatNode adds no edge to the exception entry point after a deletion, so a
+    handler reached by an exception raised later in the same block is analysed as if the variable were still bound)"""
+    def lines(stmts):
+        return {nd.lineno for st in stmts for nd in ast.walk(st) if hasattr(nd, 'lineno')}
+    for nd in ast.walk(fnode):
+        if isinstance(nd, ast.Try) and del_line in lines(nd.body):
+            if use_line in lines(nd.finalbody) or any(use_line in lines(h.body) for h in nd.handlers):
+                return True
+    return False
 
 
 def outer_finally_lines(fnode, jump_line, kind):
